@@ -245,7 +245,14 @@ def F41():  # C29 a long chain of linked objects cannot be exported (RecursionEr
     n = 1500; m = mm.model_from_str("\n".join("item i%d -> i%d" % (i, i + 1) for i in range(n)) + "\nitem i%d" % n)
     try: model_export_to_file(_io.StringIO(), m); return False
     except RecursionError: return True
-ALL = [F41, F40, F39, F38, F37, F36, F28, F1, F2, F3, F4, F5, F6, F7, F8, F9, F10, F11, F12, F13, F14, F15_16, F18, F19, F20, F21, F22, F23, F24, F26, F27]
+def F42():  # C24 (open) a regex match that begins with a blank: the compiler and textx.tx read different tokens
+    import os, textx
+    from textx import metamodel_from_file
+    g = "R: / //x/ 'a';"
+    metamodel_from_str(g)
+    try: metamodel_from_file(os.path.join(os.path.dirname(textx.__file__), "textx.tx")).model_from_str(g); return False
+    except TextXError: return True
+ALL = [F42, F41, F40, F39, F38, F37, F36, F28, F1, F2, F3, F4, F5, F6, F7, F8, F9, F10, F11, F12, F13, F14, F15_16, F18, F19, F20, F21, F22, F23, F24, F26, F27]
 if __name__ == "__main__":
     sel = sys.argv[1:]
     for w in ALL:
